@@ -16,11 +16,12 @@ ASSUMPTIONS = ["oracle: brute force over all K^T sequences (K^T<=60000) else an 
                "tolerance 4(T+2)eps(sum_i max_k|C_ik| + sum beta); 0 for integer-valued tables"]
 SHARD_TIMEOUT = {"quick": 600, "thorough": 3000}
 
-CLASSES = ["gauss", "smallint", "allequal", "mixedmag", "negative", "stayjump_tie", "T1", "K1", "dyadic", "huge_spread"]   # + "large K" (K in {257..1100}) drawn separately
+CLASSES = ["gauss", "smallint", "allequal", "mixedmag", "negative", "stayjump_tie", "T1", "K1", "dyadic", "huge_spread", "tiny_units",
+           "int_table", "f32_table"]   # + "large K" (K in {257..1100}) drawn separately
 BETA_FORMS = ["float", "int", "np.float64", "zero", "vector_rand", "vector_zeros", "vector_onezero", "vector_big", "big_scalar",
               "np.float32", "np.int64", "vector_int", "vector_f32"]
 LAYOUTS = ["C", "F", "strided", "readonly"]
-JIT_COMBOS = [("C", "float"), ("C", "vector_rand"), ("F", "float"), ("strided", "vector_onezero"), ("readonly", "int"),
+JIT_COMBOS = [("C", "float"), ("C", "float"), ("C", "vector_rand"), ("F", "float"), ("strided", "vector_onezero"), ("readonly", "int"),
               ("C", "zero"), ("C", "big_scalar"), ("C", "vector_zeros"), ("C", "vector_big"), ("C", "np.float64")]
 
 
@@ -34,6 +35,7 @@ def plan(tier, seed):
         for i in range(4):
             specs.append(dict(name="grid-%d" % i, mode="interp", kind="grid", part=i, parts=4))
         specs.append(dict(name="grid-jit", mode="jit", kind="grid", part=0, parts=6, jit=True))
+        specs.append(dict(name="predict", mode="interp", kind="predict", n=150, seed=[seed, 111, 0]))
     else:
         for i, n in enumerate(common.split_counts(48000, 10)):
             specs.append(dict(name="rand-interp-%d" % i, mode="interp", kind="random", seed=[seed, 1, i], n=n, maxT=3000, maxK=40))
@@ -45,6 +47,8 @@ def plan(tier, seed):
             specs.append(dict(name="grid-%d" % i, mode="interp", kind="grid", part=i, parts=6))
         for i in range(2):
             specs.append(dict(name="grid-jit-%d" % i, mode="jit", kind="grid", part=i, parts=2, jit=True))
+        for i in range(4):
+            specs.append(dict(name="predict-%d" % i, mode="interp" if i < 3 else "jit", kind="predict", n=500, seed=[seed, 111, i]))
     return specs
 
 
@@ -69,11 +73,27 @@ def gen_table(rng, cls, T, K):
         C = rng.normal(size=(T, K))
         C[rng.random((T, K)) < 0.2] *= 1e12
         return C
+    if cls == "tiny_units":
+        return rng.normal(size=(T, K)) * float(2.0 ** -int(rng.integers(35, 70)))       # the whole problem far below 1e-9
+    if cls == "int_table":
+        return rng.integers(-6, 7, size=(T, K)).astype([np.int64, np.int32][int(rng.integers(0, 2))])
+    if cls == "f32_table":
+        return (rng.normal(size=(T, K)) * 8 + float(rng.choice([0.0, 1e4]))).astype(np.float32)
     raise ValueError(cls)
 
 
 def gen_beta(rng, form, T, C, exact):
     spread = float(np.max(C) - np.min(C)) if C.size else 1.0
+    if C.size and 0 < float(np.max(np.abs(C))) < 1e-6 and form not in ("zero", "vector_zeros"):
+        # tiny units: the switching cost lives on the same scale as the table
+        unit = float(np.max(np.abs(C)))
+        if form.startswith("vector"):
+            v = rng.uniform(0, 1.5, size=T) * unit
+            v[rng.random(T) < 0.2] = 0.0
+            return v
+        return float(rng.uniform(0, 1.5) * unit)
+    if np.asarray(C).dtype.kind in "iu" and form in ("float", "np.float64") and not exact:
+        return float(rng.integers(0, 8)) / 4.0 + 0.25                               # fractional beta on an integer table
     if form == "float":
         return float(rng.integers(0, 5)) if exact else float(rng.uniform(0, 3) * (1 + spread / 4))
     if form == "int":
@@ -126,7 +146,7 @@ def apply_layout(C, layout):
 def check_case(res, kernel, C, beta, case, exact):
     """Run the kernel on one case and compare with the oracles.  Returns True if non-trivial."""
     T, K = C.shape
-    c_before = np.array(C, copy=True)
+    c_before = np.array(C, copy=True).astype(np.float64)
     try:
         out = kernel(label_assignment_cost=C, label_switching_cost=beta)
         labels, cost = out
@@ -166,7 +186,75 @@ def check_case(res, kernel, C, beta, case, exact):
     return lab.switches(opt_path) >= 1
 
 
+def run_predict(spec, res):
+    """The labelling step as the algorithm drives it (model in, relabelled model out), re-used for a sweep of switching costs on
+    ONE model / argument bundle: every call must be optimal for the cost in force at that call."""
+    from fast_ticc import cluster_label_assignment as cla
+    from ticcmon import instrument
+    from ticcmon.checks import c05
+    instrument.install_label_monitor()
+    rng = np.random.default_rng(spec["seed"])
+    for i in range(spec["n"]):
+        nw, W = [(1, 1), (2, 1), (4, 2), (6, 3)][int(rng.integers(0, 4))]
+        d = dict(rng=[int(v) for v in spec["seed"]] + [i], nw=nw, W=W, K=int(rng.integers(2, 5)), T=int(rng.integers(5, 60)), scale=1.0,
+                 spread=float(rng.choice([1.0, 3.0])), layout="C", theta="dense")
+        st, X = c05.make_model(d)
+        T = d["T"]
+        betas = []
+        for j in range(3):
+            u = rng.random()
+            if u < 0.4:
+                betas.append(float(rng.choice([0.0, 0.5, 2.0, 10.0, 100.0])))
+            elif u < 0.7:
+                v = rng.uniform(0, 10, size=T)
+                v[rng.random(T) < 0.2] = 0
+                betas.append(v)
+            else:
+                betas.append("edit_in_place")
+        vec = None
+        for j, b in enumerate(betas):
+            if isinstance(b, str):
+                if vec is None:
+                    vec = rng.uniform(0, 5, size=T)
+                    st.arguments.label_switching_cost = vec
+                else:
+                    vec[:] = rng.uniform(0, 20, size=T)          # the caller edits the vector it handed over earlier
+                beta_now = np.array(st.arguments.label_switching_cost, copy=True)
+            else:
+                st.arguments.label_switching_cost = b
+                if isinstance(b, np.ndarray):
+                    vec = b
+                beta_now = np.array(b, copy=True) if isinstance(b, np.ndarray) else b
+            instrument.REC.label_steps.clear()
+            case = dict(kind="predict", d=d, call=j)
+            try:
+                new = cla.predict_cluster_labels(st, X)
+            except Exception as e:
+                res.violation("predict_cluster_labels raised %s: %s" % (type(e).__name__, str(e)[:120]), case)
+                break
+            res.evaluations += 1
+            if not instrument.REC.label_steps:
+                res.count("predict_kernel_call_not_observed")
+                continue
+            C = np.asarray(instrument.REC.label_steps[-1]["table"], dtype=np.float64)
+            labels = [int(v) for v in new.point_labels]
+            tol = lab.cost_tolerance(C, beta_now)
+            pc = lab.path_cost(C, beta_now, labels)
+            opt, _ = lab.forward_viterbi(C, beta_now)
+            if abs(float(new.label_assignment_cost) - pc) > tol:
+                res.violation("call %d of a switching-cost sweep on one model: reported cost %r is not the cost %r of the returned labels under the "
+                              "switching cost in force" % (j, float(new.label_assignment_cost), pc), case)
+            elif pc > opt + tol:
+                res.violation("call %d of a switching-cost sweep on one model: labels cost %r, optimum for the switching cost in force is %r" % (j, pc, opt), case)
+            res.count("predict_calls_checked")
+            if j > 0:
+                res.nontriv(common.h(d["rng"], j))
+
+
 def run_shard(spec, res):
+    if spec["kind"] == "predict":
+        run_predict(spec, res)
+        return
     from fast_ticc import cluster_label_assignment as cla
     kernel = cla.assign_point_cluster_labels
     res.counters["numba_state"] = str(common.numba_state())
@@ -187,6 +275,8 @@ def make_random_case(desc):
     T, K = desc["T"], desc["K"]
     C = gen_table(rng, cls, T, K)
     exact = cls in ("smallint", "allequal", "stayjump_tie", "dyadic") and desc["beta_form"] not in ("big_scalar", "vector_big")
+    if cls == "int_table" and desc["beta_form"] in ("int", "np.int64", "vector_int", "zero", "vector_zeros"):
+        exact = True
     beta = gen_beta(rng, desc["beta_form"], T, C, exact)
     C = apply_layout(C, desc["layout"])
     return C, beta, exact
@@ -198,6 +288,8 @@ def run_random(spec, res, kernel):
         cls = CLASSES[int(rng.integers(0, len(CLASSES)))]
         if spec.get("jit"):
             layout, form = JIT_COMBOS[int(rng.integers(0, len(JIT_COMBOS)))]
+            if cls in ("int_table", "f32_table"):
+                layout, form = "C", "float"          # one extra compiled signature per table dtype
         else:
             layout = LAYOUTS[int(rng.integers(0, len(LAYOUTS)))]
             form = BETA_FORMS[int(rng.integers(0, len(BETA_FORMS)))]
@@ -258,6 +350,9 @@ def run_grid(spec, res, kernel):
 
 
 def replay(case, res):
+    if case.get("kind") == "predict":
+        run_predict(dict(seed=case["d"]["rng"][:-1], n=case["d"]["rng"][-1] + 1), res)
+        return
     from fast_ticc import cluster_label_assignment as cla
     kernel = cla.assign_point_cluster_labels
     if case["kind"] == "random":
@@ -274,6 +369,8 @@ def finalize(merged, tier):
     c = merged["counters"]
     if c.get("large_K_cases", 0) < 20:
         out["inconclusive"].append("only %d cases with more than 256 clusters" % c.get("large_K_cases", 0))
+    if c.get("predict_calls_checked", 0) < 300:
+        out["inconclusive"].append("only %d relabelling calls of switching-cost sweeps were checked" % c.get("predict_calls_checked", 0))
     if c.get("brute_forced", 0) < 500:
         out["inconclusive"].append("brute-force oracle decided only %d cases" % c.get("brute_forced", 0))
     out["exhaustive_subspace"] = "T<=3,K<=3, entries and betas in {0,1,2}: enumerated completely (interpreted kernel)"
